@@ -287,3 +287,24 @@ def gen(seed, tier):
     stats["op_kinds"] = kinds
     stats["static_valid_cases"] = sum(1 for c in cases if static_valid(c))
     return cases, stats
+
+
+def gen_session(seed, tier):
+    """Session-level cases for harness/c12s.cc (real up_chunk path under a global upload limit)."""
+    r = random.Random(seed * 7919 + 12)
+    cases = ["rate=20000 secs=6 step=250000",
+             "rate=0 secs=2 step=500000",
+             "rate=100000 secs=6 step=100000 change=3:10000",
+             "rate=50000 secs=8 step=250000 slave=10000",
+             "rate=10240 secs=6 step=500000 change=2:0,4:10240"]
+    n = 3 if tier == "quick" else 40
+    for _ in range(n):
+        rate = r.choice([3000, 8192, 8193, 20000, 65536, 131073, 400000, 1 << 20])
+        c = "rate=%d secs=%d step=%d" % (rate, r.randrange(4, 10), r.choice([100000, 250000, 500000, 1000000]))
+        k = r.random()
+        if k < 0.35:
+            c += " change=%d:%d" % (r.randrange(1, 4), r.choice([0, 5000, 50000, 300000]))
+        elif k < 0.6:
+            c += " slave=%d" % r.choice([0, 4000, 30000, 2 * rate])
+        cases.append(c)
+    return cases
